@@ -10,6 +10,8 @@ import time
 import vlib
 from vlib import log
 
+PROPS = ["C01", "C02", "C10"]
+
 INSTANCES = [(d, k) for d in range(3) for k in range(2)]
 DB_NAMES = ["db", "mutex_db", "olc_db"]
 KEY_NAMES = ["uint64", "key_view"]
